@@ -189,6 +189,22 @@ def stepC11 (d : DSt) (op : String) (got : String) : StepResult DSt :=
       { st := d', expected := some "ok", spec := crash,
         cov := [s!"blk-T{tlLen t}-L{tlLen n}"] ++ (if b.length = maxPkt then ["blk-maxsize"] else []) }
     | _, _, _ => { st := d, expected := some "bad-op" }
+  | ["rs", n] =>
+    -- application side, SEND: the same Wire value is passed to StreamFace.Send twice (a retransmitted Interest,
+    -- a cached Data served again): the stream carries the block twice — Send must not consume its argument
+    if d.kind != .appS || n.toNat?.isNone then { st := d, expected := some "skip" } else
+    match d.blkQ with
+    | a :: rest =>
+      let frames := match field (got.splitOn " ") "f" with | some fs => parseFrames fs | none => []
+      let fails : List SpecFail :=
+        if got.startsWith "k=" && frames != [digest a, digest a] then
+          [⟨"exactly-the-blocks", "resend-lost",
+            s!"{op}: block {digest a} was handed to Send twice (the same Wire value), the stream carries {frames}"⟩]
+        else if got == "send-error" then [⟨"exactly-the-blocks", "resend-lost", s!"{op}: Send failed"⟩]
+        else []
+      { st := { d with blkQ := rest }, expected := some s!"k={2 * a.length} f={digest a},{digest a}",
+        spec := crash ++ fails, cov := ["rs"], nontrivial := true }
+    | _ => { st := d, expected := some "skip" }
   | ["cs", na, nb] =>
     -- application side, SEND: two goroutines call StreamFace.Send concurrently (Wires of <na> and <nb>
     -- buffers); the face serialises whole Wires, so the byte stream is the two blocks, unsplit
